@@ -140,37 +140,47 @@ structure RState where
 
 def emptyNC : Option NC := some []
 
+/-- the first half of a non-zero delta: the open entry gets this length (with the beat counter corrected); on an
+    empty bar the elapsed time is placed as a rest -/
+def closeOpen (b : Bar) (dur : Rat) : Bar :=
+  match b.entries.getLast? with
+  | some last =>
+    let es := b.entries.dropLast ++ [{ last with value := dur }]
+    if F64.sub last.value dur ≠ 0 then
+      { b with entries := es, current := F64.add (F64.sub b.current (F64.div 1 last.value)) (F64.div 1 dur) }
+    else { b with entries := es }
+  | none => (b.place emptyNC dur).2
+
 /-- a non-zero delta: close the open entry with this length (or, on an empty bar, place the elapsed time as a rest),
     then open a new entry — in a new bar if this one has no room -/
-def onDelta (st : RState) (dur : Rat) : Except Err RState := do
-  let b := st.b
-  let b : Bar :=
-    match b.entries.getLast? with
-    | some last =>
-      let es := b.entries.dropLast ++ [{ last with value := dur }]
-      if F64.sub last.value dur ≠ 0 then
-        { b with entries := es, current := F64.add (F64.sub b.current (F64.div 1 last.value)) (F64.div 1 dur) }
-      else { b with entries := es }
-    | none => (b.place emptyNC dur).2
-  let (ok, b') := b.place emptyNC dur
-  if ok then pure { st with b := b' }
+def onDelta (st : RState) (dur : Rat) : Except Err RState :=
+  let b := closeOpen st.b dur
+  if (b.place emptyNC dur).1 then pure { st with b := (b.place emptyNC dur).2 }
   else do
     let nb ← Bar.new st.key st.meter.1 st.meter.2
     pure { st with t := { st.t with bars := st.t.bars ++ [b] }, b := (nb.place emptyNC dur).2 }
 
 def signedByte (x : Nat) : Int := if x > 127 then (x : Int) - 256 else x
 
+/-- the Note of a note-on event: sharp spelling of the pitch class, octave `pitch // 12 - 1` -/
+def noteOf (ch p1 p2 : Nat) : Except Err Note := do
+  let nm ← Notes.intToNote ((p1 % 12 : Nat) : Int) ['#']
+  pure ⟨nm, ((p1 / 12 : Nat) : Int) - 1, ch, p2⟩
+
+/-- a note-on: into the open entry, or (empty bar) a new entry of one beat unit holding it -/
+def addOn (st : RState) (n : Note) : Except Err RState :=
+  match st.b.entries.getLast? with
+  | some last =>
+    match last.content with
+    | some nc => pure { st with b := { st.b with entries := st.b.entries.dropLast ++ [{ last with content := some (NC.addNoteObj nc n) }] } }
+    | none => .error .type
+  | none => pure { st with b := (st.b.plus (some [n])).2 }
+
 def onEvent (st : RState) (e : PEv) : Except Err RState :=
   match e with
   | .chan 9 ch p1 (some p2) => do
-    let nm ← Notes.intToNote ((p1 % 12 : Nat) : Int) ['#']
-    let n : Note := ⟨nm, ((p1 / 12 : Nat) : Int) - 1, ch, p2⟩
-    match st.b.entries.getLast? with
-    | some last =>
-      match last.content with
-      | some nc => pure { st with b := { st.b with entries := st.b.entries.dropLast ++ [{ last with content := some (NC.addNoteObj nc n) }] } }
-      | none => .error .type
-    | none => pure { st with b := (st.b.plus (some [n])).2 }
+    let n ← noteOf ch p1 p2
+    addOn st n
   | .chan 12 _ p1 _ => pure { st with t := { st.t with instr := some p1 } }
   | .chan _ _ _ _ => pure st
   | .metaE 3 d => if d.any (· ≥ 128) then .error .other else pure { st with t := { st.t with name := d.map Char.ofNat } }
